@@ -861,7 +861,8 @@ Stylesheet::addTemplate(
                         tempString,
                         *xp,
                         xp->getExpression().getCurrentPattern(),
-                        data[i].getDefaultPriority());
+                        data[i].getDefaultPriority(),
+                        i);
 
                 ++m_patternCount;
 
@@ -1205,10 +1206,11 @@ Stylesheet::findTemplate(
                 if ((!haveMode && !haveRuleMode) ||
                     (haveMode && haveRuleMode && ruleMode.equals(mode)))
                 {
-                    const XPath* const  xpath = matchPat->getExpression();
-
+                    // A pattern that contains '|' is treated as a set of
+                    // template rules, one for each alternative, so only
+                    // the alternative this entry was made for counts...
                     XPath::eMatchScore  score =
-                                xpath->getMatchScore(targetNode, *this, executionContext);
+                                matchPat->getMatchScore(targetNode, *this, executionContext);
 
                     if(XPath::eMatchScoreNone != score)
                     {
@@ -1284,19 +1286,23 @@ Stylesheet::findTemplate(
                         const XalanDOMString*   patterns = matchPat->getPattern();
                         assert(patterns != 0);
 
+                        // A pattern that contains '|' is treated as a set of
+                        // template rules, one for each alternative.  Once an
+                        // alternative has made its rule the best one, the others
+                        // cannot beat it, and are not in conflict with it.
                         if(!patterns->empty() &&
+                           rule != bestMatchedRule &&
                            !(prevMatchPat != 0 &&
                              (prevPat != 0 && equals(*prevPat, *patterns)) &&
+                             prevMatchPat->getAlternative() == matchPat->getAlternative() &&
                              prevMatchPat->getTemplate()->getPriority() == matchPat->getTemplate()->getPriority()))
                         {
                             prevPat = patterns;
                             prevMatchPat = matchPat;
                             matchPatPriority = matchScoreNoneValue;
 
-                            const XPath* const  xpath = matchPat->getExpression();
-
                             XPath::eMatchScore  score =
-                                        xpath->getMatchScore(targetNode, *this, executionContext);
+                                        matchPat->getMatchScore(targetNode, *this, executionContext);
 
                             if(XPath::eMatchScoreNone != score)
                             {
